@@ -21,77 +21,103 @@ theorem pureRun_total {O} (x : Ext R) (fl : Flags) (pol : Policy O) (ps : List P
 theorem clOf_zero (L : Int) (hL : 0 < L) : clOf L 0 = L := by
   unfold clOf; split <;> (push_cast; omega)
 
-/-- the start state of a core call -/
-def coreStart (neg0 : List R) (pulls0 : Nat) : Acc (PN R) := ⟨0, pulls0, [], ⟨[], neg0⟩⟩
+/-! ### the budget the main loop starts with -/
+
+theorem startLimit_zero (L : Int) : startLimit L 0 = L := by
+  unfold startLimit
+  split
+  · split <;> (push_cast at *; omega)
+  · rfl
+
+theorem startLimit_pos (L : Int) (hL : 0 < L) (used : Nat) : startLimit L used = clOf L used := by
+  unfold startLimit clOf; simp only [hL, if_true]
+
+theorem startLimit_nonpos (L : Int) (hL : L ≤ 0) (used : Nat) : startLimit L used = L := by
+  unfold startLimit
+  have : ¬ (0 < L) := by omega
+  simp only [this, if_false]
+
+theorem startLimit_bounds (L : Int) (hL : 0 < L) (used : Nat) : 1 ≤ startLimit L used ∧ startLimit L used ≤ L := by
+  unfold startLimit
+  simp only [hL, if_true]
+  split <;> omega
+
+/-- the start state of a core call: `total = used` (the exclusion patterns already counted) -/
+def coreStart (neg0 : List R) (pulls0 : Nat) (used : Nat) : Acc (PN R) := ⟨used, pulls0, [], ⟨[], neg0⟩⟩
 
 /-- the result of a core call from its final state -/
 def coreOut (x : Ext R) (fl : Flags) (a : Acc (PN R)) : Out R :=
   let o := finishPN x fl a.out
   ⟨o.pos, o.neg, a.pulls⟩
 
-theorem compileCore_def (x : Ext R) (fl : Flags) (L : Int) (ps : List Pat) (neg0 : List R) (pulls0 : Nat) :
-    compileCore x fl L ps neg0 pulls0 =
-      match runPatterns x fl (pnPolicy x fl) L ps L (coreStart neg0 pulls0) with
+theorem compileCore_def (x : Ext R) (fl : Flags) (L : Int) (ps : List Pat) (neg0 : List R) (pulls0 used : Nat) :
+    compileCore x fl L ps neg0 pulls0 used =
+      match runPatterns x fl (pnPolicy x fl) L ps (startLimit L used) (coreStart neg0 pulls0 used) with
       | .error e => .error e
       | .ok (a, _) => .ok (coreOut x fl a) := rfl
 
 theorem core_ok (x : Ext R) (fl : Flags) (cnt : Pat → Nat) (hb : BraceOK x cnt) (L : Int) (ps : List Pat)
-    (neg0 : List R) (pulls0 : Nat) (hn : NormOK x fl ps)
-    (h : L = 0 ∨ (0 < L ∧ (totalWeight x fl cnt ps : Int) ≤ L)) :
-    compileCore x fl L ps neg0 pulls0 =
-      .ok (coreOut x fl (pureRun x fl (pnPolicy x fl) ps (coreStart neg0 pulls0))) := by
-  obtain ⟨cl', hrun, _⟩ := runPatterns_ok x fl (pnPolicy x fl) cnt hb L ps 0 (coreStart neg0 pulls0) L hn (by
+    (neg0 : List R) (pulls0 used : Nat) (hn : NormOK x fl ps)
+    (h : L = 0 ∨ (0 < L ∧ ((used + totalWeight x fl cnt ps : Nat) : Int) ≤ L)) :
+    compileCore x fl L ps neg0 pulls0 used =
+      .ok (coreOut x fl (pureRun x fl (pnPolicy x fl) ps (coreStart neg0 pulls0 used))) := by
+  obtain ⟨cl', hrun, _⟩ := runPatterns_ok x fl (pnPolicy x fl) cnt hb L ps 0 (coreStart neg0 pulls0 used)
+    (startLimit L used) hn (by
     rcases h with h | ⟨h1, h2⟩
-    · exact Or.inl ⟨h, h⟩
+    · exact Or.inl ⟨h, by rw [startLimit_nonpos L (by omega)]; exact h⟩
     · right
       refine ⟨h1, ?_, ?_⟩
-      · simp [coreStart, clOf_zero L h1]
+      · simp [coreStart, startLimit_pos L h1]
       · simpa [coreStart] using h2)
   rw [compileCore_def, hrun]
 
 theorem core_inv (x : Ext R) (fl : Flags) (cnt : Pat → Nat) (hb : BraceOK x cnt) (L : Int) (ps : List Pat)
-    (neg0 : List R) (pulls0 : Nat) (o : Out R) (h : compileCore x fl L ps neg0 pulls0 = .ok o) :
-    o = coreOut x fl (pureRun x fl (pnPolicy x fl) ps (coreStart neg0 pulls0)) ∧ NormOK x fl ps := by
+    (neg0 : List R) (pulls0 used : Nat) (o : Out R) (h : compileCore x fl L ps neg0 pulls0 used = .ok o) :
+    o = coreOut x fl (pureRun x fl (pnPolicy x fl) ps (coreStart neg0 pulls0 used)) ∧ NormOK x fl ps := by
   rw [compileCore_def] at h
-  cases hr : runPatterns x fl (pnPolicy x fl) L ps L (coreStart neg0 pulls0) with
+  cases hr : runPatterns x fl (pnPolicy x fl) L ps (startLimit L used) (coreStart neg0 pulls0 used) with
   | error e => simp [hr] at h
   | ok r =>
     obtain ⟨a, cl⟩ := r
     simp only [hr] at h
-    obtain ⟨h1, h2⟩ := runPatterns_inv x fl (pnPolicy x fl) cnt hb L ps _ L _ hr
+    obtain ⟨h1, h2⟩ := runPatterns_inv x fl (pnPolicy x fl) cnt hb L ps _ _ _ hr
     simp only at h1
     cases h
     exact ⟨by rw [h1], h2⟩
 
+/-- the loop raises as soon as `used` + the pieces of the list exceed the limit -/
 theorem core_raises (x : Ext R) (fl : Flags) (cnt : Pat → Nat) (hb : BraceOK x cnt) (L : Int) (hL : 0 < L)
-    (ps : List Pat) (neg0 : List R) (pulls0 : Nat) (hn : NormOK x fl ps)
-    (h : L < ((allPieces x fl ps).length : Int)) :
-    ∃ k, compileCore x fl L ps neg0 pulls0 = .error (.patternLimit, k) := by
-  obtain ⟨k, hk⟩ := runPatterns_raises x fl (pnPolicy x fl) cnt hb L hL ps (coreStart neg0 pulls0) L hn
-    (by simp [coreStart]; omega) (by simpa [coreStart] using h)
+    (ps : List Pat) (neg0 : List R) (pulls0 used : Nat) (hn : NormOK x fl ps) (hu : (used : Int) ≤ L)
+    (h : L < ((used + (allPieces x fl ps).length : Nat) : Int)) :
+    ∃ k, compileCore x fl L ps neg0 pulls0 used = .error (.patternLimit, k) := by
+  obtain ⟨k, hk⟩ := runPatterns_raises x fl (pnPolicy x fl) cnt hb L hL ps (coreStart neg0 pulls0 used)
+    (startLimit L used) hn (by simpa [coreStart] using hu) (by simpa [coreStart] using h)
   exact ⟨k, by rw [compileCore_def, hk]⟩
 
-theorem core_err_kind (x : Ext R) (fl : Flags) (L : Int) (ps : List Pat) (neg0 : List R) (pulls0 : Nat)
-    (hn : NormOK x fl ps) (e : Err) (k : Nat) (h : compileCore x fl L ps neg0 pulls0 = .error (e, k)) :
+theorem core_err_kind (x : Ext R) (fl : Flags) (L : Int) (ps : List Pat) (neg0 : List R) (pulls0 used : Nat)
+    (hn : NormOK x fl ps) (e : Err) (k : Nat) (h : compileCore x fl L ps neg0 pulls0 used = .error (e, k)) :
     e = .patternLimit := by
   rw [compileCore_def] at h
-  cases hr : runPatterns x fl (pnPolicy x fl) L ps L (coreStart neg0 pulls0) with
+  cases hr : runPatterns x fl (pnPolicy x fl) L ps (startLimit L used) (coreStart neg0 pulls0 used) with
   | error e1 =>
     obtain ⟨e1, k1⟩ := e1
     simp only [hr] at h
     cases h
-    exact runPatterns_error_kind x fl _ L ps _ L hn _ _ hr
+    exact runPatterns_error_kind x fl _ L ps _ _ hn _ _ hr
   | ok r => simp [hr] at h
 
+/-- work of one core call that starts with `used` patterns already counted: the items it draws,
+    plus `used`, stay within `L` (`L + 1` when it raises) of the pull count it started with -/
 theorem core_work (x : Ext R) (fl : Flags) (hs : fl.split = true → SplitNonempty x fl) (L : Int) (hL : 0 < L)
-    (ps : List Pat) (neg0 : List R) (pulls0 : Nat) :
-    (∀ o, compileCore x fl L ps neg0 pulls0 = .ok o → (o.pulls : Int) ≤ pulls0 + L) ∧
-    (∀ e k, compileCore x fl L ps neg0 pulls0 = .error (e, k) → (k : Int) ≤ pulls0 + L + 1) := by
-  have hw := runPatterns_work x fl (pnPolicy x fl) hs L hL ps (coreStart neg0 pulls0) L (by simp [coreStart]; omega)
+    (ps : List Pat) (neg0 : List R) (pulls0 used : Nat) (hu : (used : Int) ≤ L) :
+    (∀ o, compileCore x fl L ps neg0 pulls0 used = .ok o → ((o.pulls + used : Nat) : Int) ≤ pulls0 + L) ∧
+    (∀ e k, compileCore x fl L ps neg0 pulls0 used = .error (e, k) → ((k + used : Nat) : Int) ≤ pulls0 + L + 1) := by
+  have hw := runPatterns_work x fl (pnPolicy x fl) hs L hL ps (coreStart neg0 pulls0 used) (startLimit L used)
+    (by simpa [coreStart] using hu)
   rw [compileCore_def]
   constructor
   · intro o h
-    cases hr : runPatterns x fl (pnPolicy x fl) L ps L (coreStart neg0 pulls0) with
+    cases hr : runPatterns x fl (pnPolicy x fl) L ps (startLimit L used) (coreStart neg0 pulls0 used) with
     | error e => simp [hr] at h
     | ok r =>
       obtain ⟨a, cl⟩ := r
@@ -99,51 +125,62 @@ theorem core_work (x : Ext R) (fl : Flags) (hs : fl.split = true → SplitNonemp
       cases h
       obtain ⟨h1, h2⟩ := hw.1 a cl hr
       simp only [coreStart, coreOut] at h2 ⊢
-      omega
+      push_cast; omega
   · intro e k h
-    cases hr : runPatterns x fl (pnPolicy x fl) L ps L (coreStart neg0 pulls0) with
+    cases hr : runPatterns x fl (pnPolicy x fl) L ps (startLimit L used) (coreStart neg0 pulls0 used) with
     | error e1 =>
       obtain ⟨e1, k1⟩ := e1
       simp only [hr] at h
       cases h
       have := hw.2 _ _ hr
       simp only [coreStart] at this
-      omega
+      push_cast; omega
     | ok r => simp [hr] at h
+
+/-- a core call that does not raise has consumed all its pieces within the limit -/
+theorem core_total_le (x : Ext R) (fl : Flags) (cnt : Pat → Nat) (hb : BraceOK x cnt) (L : Int) (hL : 0 < L)
+    (ps : List Pat) (neg0 : List R) (pulls0 used : Nat) (hu : (used : Int) ≤ L) (o : Out R)
+    (h : compileCore x fl L ps neg0 pulls0 used = .ok o) :
+    ((used + (allPieces x fl ps).length : Nat) : Int) ≤ L := by
+  obtain ⟨_, hn⟩ := core_inv x fl cnt hb L ps neg0 pulls0 used o h
+  by_cases hov : L < ((used + (allPieces x fl ps).length : Nat) : Int)
+  · obtain ⟨k, hk⟩ := core_raises x fl cnt hb L hL ps neg0 pulls0 used hn hu hov
+    rw [hk] at h; cases h
+  · omega
 
 /-- pulls never exceed pieces consumed (each item has at least one piece) -/
 theorem core_pulls_le_total (x : Ext R) (fl : Flags) (cnt : Pat → Nat) (hb : BraceOK x cnt)
     (hs : fl.split = true → SplitNonempty x fl) (L : Int) (hL : 0 < L)
-    (ps : List Pat) (neg0 : List R) (pulls0 : Nat) (o : Out R)
-    (h : compileCore x fl L ps neg0 pulls0 = .ok o) :
-    o.pulls ≤ pulls0 + (allPieces x fl ps).length ∧ ((allPieces x fl ps).length : Int) ≤ L := by
-  have hw := runPatterns_work x fl (pnPolicy x fl) hs L hL ps (coreStart neg0 pulls0) L (by simp [coreStart]; omega)
+    (ps : List Pat) (neg0 : List R) (pulls0 used : Nat) (hu : (used : Int) ≤ L) (o : Out R)
+    (h : compileCore x fl L ps neg0 pulls0 used = .ok o) :
+    o.pulls ≤ pulls0 + (allPieces x fl ps).length ∧ ((used + (allPieces x fl ps).length : Nat) : Int) ≤ L := by
+  refine ⟨?_, core_total_le x fl cnt hb L hL ps neg0 pulls0 used hu o h⟩
+  have hw := runPatterns_work x fl (pnPolicy x fl) hs L hL ps (coreStart neg0 pulls0 used) (startLimit L used)
+    (by simpa [coreStart] using hu)
   rw [compileCore_def] at h
-  cases hr : runPatterns x fl (pnPolicy x fl) L ps L (coreStart neg0 pulls0) with
+  cases hr : runPatterns x fl (pnPolicy x fl) L ps (startLimit L used) (coreStart neg0 pulls0 used) with
   | error e => simp [hr] at h
   | ok r =>
     obtain ⟨a, cl⟩ := r
     simp only [hr] at h
     cases h
     obtain ⟨h1, h2⟩ := hw.1 a cl hr
-    obtain ⟨h3, _⟩ := runPatterns_inv x fl (pnPolicy x fl) cnt hb L ps _ L _ hr
+    obtain ⟨h3, _⟩ := runPatterns_inv x fl (pnPolicy x fl) cnt hb L ps _ _ _ hr
     simp only at h3
-    have ht := pureRun_total x fl (pnPolicy x fl) ps (coreStart neg0 pulls0)
+    have ht := pureRun_total x fl (pnPolicy x fl) ps (coreStart neg0 pulls0 used)
     rw [← h3] at ht
     simp only [coreStart, coreOut] at h2 ht ⊢
-    constructor
-    · omega
-    · rw [ht] at h1; simpa using h1
+    omega
 
 /-- what the core call builds: first occurrences, by sign, in order -/
-theorem core_out (x : Ext R) (fl : Flags) (ps : List Pat) (neg0 : List R) (pulls0 : Nat) :
-    (pureRun x fl (pnPolicy x fl) ps (coreStart neg0 pulls0)).out.pos =
+theorem core_out (x : Ext R) (fl : Flags) (ps : List Pat) (neg0 : List R) (pulls0 used : Nat) :
+    (pureRun x fl (pnPolicy x fl) ps (coreStart neg0 pulls0 used)).out.pos =
       ((distinct (allPieces x fl ps)).filter (fun e => !isNegative fl e)).map (x.parse fl) ∧
-    (pureRun x fl (pnPolicy x fl) ps (coreStart neg0 pulls0)).out.neg =
+    (pureRun x fl (pnPolicy x fl) ps (coreStart neg0 pulls0 used)).out.neg =
       neg0 ++ ((distinct (allPieces x fl ps)).filter (fun e => isNegative fl e)).map
         (fun e => x.parse (negFlags fl) (e.drop 1)) := by
-  have hc := pureRun_core x fl (pnPolicy x fl) ps (coreStart neg0 pulls0) (coreStart neg0 pulls0) ⟨rfl, rfl, rfl⟩
-  have hf := foldP_pn x fl (allPieces x fl ps) (coreStart neg0 pulls0)
+  have hc := pureRun_core x fl (pnPolicy x fl) ps (coreStart neg0 pulls0 used) (coreStart neg0 pulls0 used) ⟨rfl, rfl, rfl⟩
+  have hf := foldP_pn x fl (allPieces x fl ps) (coreStart neg0 pulls0 used)
   rw [hc.2.2, hf.1, hf.2]
   simp [coreStart, dn_nil]
 
@@ -152,10 +189,10 @@ theorem isNegative_of_no_negate (fl : Flags) (h : fl.negate = false) (e : Pat) :
 
 /-- the exclusion call returns one positive per distinct piece -/
 theorem core_excl_count (x : Ext R) (fl : Flags) (hneg : fl.negate = false) (hna : fl.negateall = false)
-    (ps : List Pat) (neg0 : List R) (pulls0 : Nat) :
-    (coreOut x fl (pureRun x fl (pnPolicy x fl) ps (coreStart neg0 pulls0))).pos.length =
+    (ps : List Pat) (neg0 : List R) (pulls0 used : Nat) :
+    (coreOut x fl (pureRun x fl (pnPolicy x fl) ps (coreStart neg0 pulls0 used))).pos.length =
       (distinct (allPieces x fl ps)).length := by
-  have h1 := (core_out x fl ps neg0 pulls0).1
+  have h1 := (core_out x fl ps neg0 pulls0 used).1
   simp only [coreOut, finishPN, hna, Bool.and_false, Bool.false_eq_true, if_false, h1]
   have : (distinct (allPieces x fl ps)).filter (fun e => !isNegative fl e) = distinct (allPieces x fl ps) := by
     apply List.filter_eq_self.mpr
@@ -173,11 +210,11 @@ def flM (tr : Bool) (fl0 : Flags) (hasExcl : Bool) : Flags := trFlag tr (if hasE
 def pnCall (tr : Bool) (x : Ext R) (fl0 : Flags) (L : Int) (ps : List Pat) (ex : Option (List Pat)) :
     Except (Err × Nat) (Out R) :=
   match ex with
-  | none => compileCore x (flM tr fl0 false) L ps [] 0
+  | none => compileCore x (flM tr fl0 false) L ps [] 0 0
   | some e =>
-    match compileCore x (flE tr fl0) L e [] 0 with
+    match compileCore x (flE tr fl0) L e [] 0 0 with
     | .error er => .error er
-    | .ok o => compileCore x (flM tr fl0 true) (L - o.pos.length) ps o.pos o.pulls
+    | .ok o => compileCore x (flM tr fl0 true) L ps o.pos o.pulls o.pos.length
 
 theorem translate_eq (x : Ext R) (fl0 : Flags) (L : Int) (ps : List Pat) (ex : Option (List Pat)) :
     translate x fl0 L ps ex = pnCall true x fl0 L ps ex := by
@@ -196,6 +233,18 @@ def exclCount (tr : Bool) (x : Ext R) (fl0 : Flags) (ex : Option (List Pat)) : N
   | none => 0
   | some e => (distinct (allPieces x (flE tr fl0) e)).length
 
+/-- number of exclusion pieces, duplicates included (what the `exclude=` call counts itself) -/
+def exclTotal (tr : Bool) (x : Ext R) (fl0 : Flags) (ex : Option (List Pat)) : Nat :=
+  match ex with
+  | none => 0
+  | some e => (allPieces x (flE tr fl0) e).length
+
+theorem exclCount_le_total (tr : Bool) (x : Ext R) (fl0 : Flags) (ex : Option (List Pat)) :
+    exclCount tr x fl0 ex ≤ exclTotal tr x fl0 ex := by
+  cases ex with
+  | none => exact Nat.le_refl _
+  | some e => exact distinct_length_le _
+
 def exclNormOK (tr : Bool) (x : Ext R) (fl0 : Flags) (ex : Option (List Pat)) : Prop :=
   match ex with
   | none => True
@@ -210,148 +259,174 @@ def pullsOf {α} : Except (Err × Nat) α → (α → Nat) → Nat
   | .ok o, f => f o
   | .error (_, k), _ => k
 
+/-- what a call returns when no limit interferes: the limit-free meaning of the two loops
+    (`L` does not occur) -/
+def pnPure (tr : Bool) (x : Ext R) (fl0 : Flags) (ps : List Pat) (ex : Option (List Pat)) : Out R :=
+  match ex with
+  | none => coreOut x (flM tr fl0 false) (pureRun x (flM tr fl0 false) (pnPolicy x (flM tr fl0 false)) ps (coreStart [] 0 0))
+  | some e =>
+    let oe := coreOut x (flE tr fl0) (pureRun x (flE tr fl0) (pnPolicy x (flE tr fl0)) e (coreStart [] 0 0))
+    coreOut x (flM tr fl0 true)
+      (pureRun x (flM tr fl0 true) (pnPolicy x (flM tr fl0 true)) ps (coreStart oe.pos oe.pulls oe.pos.length))
+
+/-- the limit is disabled, or exclusions and inclusions together fit: the limit-free result -/
+theorem pn_ok_val (tr : Bool) (x : Ext R) (fl0 : Flags) (cnt : Pat → Nat) (hb : BraceOK x cnt) (L : Int)
+    (ps : List Pat) (ex : Option (List Pat))
+    (hne : exclNormOK tr x fl0 ex) (hnm : NormOK x (flM tr fl0 ex.isSome) ps)
+    (h : L = 0 ∨ (0 < L ∧
+      ((exclWeight tr x fl0 cnt ex + totalWeight x (flM tr fl0 ex.isSome) cnt ps : Nat) : Int) ≤ L)) :
+    pnCall tr x fl0 L ps ex = .ok (pnPure tr x fl0 ps ex) := by
+  cases ex with
+  | none =>
+    simp only [exclWeight, Option.isSome_none, Nat.zero_add] at h hnm
+    simp only [pnCall, pnPure]
+    exact core_ok x _ cnt hb L ps [] 0 0 hnm (by
+      rcases h with h | ⟨h1, h2⟩
+      · exact Or.inl h
+      · exact Or.inr ⟨h1, by simpa using h2⟩)
+  | some e =>
+    simp only [exclWeight, exclNormOK, Option.isSome_some] at h hne hnm
+    have he := core_ok x (flE tr fl0) cnt hb L e [] 0 0 hne (by
+      rcases h with h | ⟨h1, h2⟩
+      · exact Or.inl h
+      · exact Or.inr ⟨h1, by push_cast at h2 ⊢; omega⟩)
+    have hc := core_excl_count x (flE tr fl0) (flE_negate tr fl0).1 (flE_negate tr fl0).2 e [] 0 0
+    have h1 := distinct_length_le (allPieces x (flE tr fl0) e)
+    have h2 := allPieces_le_weight x (flE tr fl0) cnt e
+    simp only [pnCall, he, pnPure]
+    refine core_ok x _ cnt hb _ ps _ _ _ hnm ?_
+    rw [hc]
+    rcases h with h | ⟨h3, h4⟩
+    · exact Or.inl h
+    · exact Or.inr ⟨h3, by push_cast at h4 ⊢; omega⟩
+
 theorem pn_ok (tr : Bool) (x : Ext R) (fl0 : Flags) (cnt : Pat → Nat) (hb : BraceOK x cnt) (L : Int) (hL : 0 < L)
     (ps : List Pat) (ex : Option (List Pat))
     (hne : exclNormOK tr x fl0 ex) (hnm : NormOK x (flM tr fl0 ex.isSome) ps)
     (h : ((exclWeight tr x fl0 cnt ex + totalWeight x (flM tr fl0 ex.isSome) cnt ps : Nat) : Int) ≤ L) :
-    ∃ o, pnCall tr x fl0 L ps ex = .ok o := by
-  cases ex with
-  | none =>
-    simp only [exclWeight, Option.isSome_none, Nat.zero_add] at h hnm
-    exact ⟨_, by simp only [pnCall]; exact core_ok x _ cnt hb L ps [] 0 hnm (Or.inr ⟨hL, h⟩)⟩
-  | some e =>
-    simp only [exclWeight, exclNormOK, Option.isSome_some] at h hne hnm
-    have he := core_ok x (flE tr fl0) cnt hb L e [] 0 hne (Or.inr ⟨hL, by push_cast at h ⊢; omega⟩)
-    have hc := core_excl_count x (flE tr fl0) (flE_negate tr fl0).1 (flE_negate tr fl0).2 e [] 0
-    have h1 := distinct_length_le (allPieces x (flE tr fl0) e)
-    have h2 := allPieces_le_weight x (flE tr fl0) cnt e
-    simp only [pnCall, he]
-    refine ⟨_, core_ok x _ cnt hb _ ps _ _ hnm ?_⟩
-    rw [hc]
-    by_cases hz : L - ((distinct (allPieces x (flE tr fl0) e)).length : Int) = 0
-    · exact Or.inl hz
-    · right; push_cast at h ⊢; omega
+    ∃ o, pnCall tr x fl0 L ps ex = .ok o ∧ pnCall tr x fl0 0 ps ex = .ok o :=
+  ⟨_, pn_ok_val tr x fl0 cnt hb L ps ex hne hnm (Or.inr ⟨hL, h⟩),
+      pn_ok_val tr x fl0 cnt hb 0 ps ex hne hnm (Or.inl rfl)⟩
 
+/-- FULL: the exclusion call counts its own pieces, the main loop continues from the number of
+    (distinct) exclusions it returned -/
 theorem pn_raises (tr : Bool) (x : Ext R) (fl0 : Flags) (cnt : Pat → Nat) (hb : BraceOK x cnt) (L : Int) (hL : 0 < L)
     (ps : List Pat) (ex : Option (List Pat))
     (hne : exclNormOK tr x fl0 ex) (hnm : NormOK x (flM tr fl0 ex.isSome) ps)
-    (hpart : ex = none ∨ (exclCount tr x fl0 ex : Int) < L)
-    (h : L < ((exclCount tr x fl0 ex + (distinct (allPieces x (flM tr fl0 ex.isSome) ps)).length : Nat) : Int)) :
+    (h : L < (exclTotal tr x fl0 ex : Int) ∨
+         L < ((exclCount tr x fl0 ex + (allPieces x (flM tr fl0 ex.isSome) ps).length : Nat) : Int)) :
     ∃ k, pnCall tr x fl0 L ps ex = .error (.patternLimit, k) := by
   cases ex with
   | none =>
-    simp only [exclCount, Option.isSome_none, Nat.zero_add] at h hnm
-    have := distinct_length_le (allPieces x (flM tr fl0 false) ps)
+    simp only [exclCount, exclTotal, Option.isSome_none, Nat.zero_add] at h hnm
     simp only [pnCall]
-    exact core_raises x _ cnt hb L hL ps [] 0 hnm (by omega)
+    rcases h with h | h
+    · simp at h; omega
+    · exact core_raises x _ cnt hb L hL ps [] 0 0 hnm (by simp; omega) (by simpa using h)
   | some e =>
-    simp only [exclCount, exclNormOK, Option.isSome_some] at h hne hnm hpart
-    have hlt : ((distinct (allPieces x (flE tr fl0) e)).length : Int) < L := by
-      rcases hpart with hp | hp
-      · cases hp
-      · exact hp
+    simp only [exclCount, exclTotal, exclNormOK, Option.isSome_some] at h hne hnm
     simp only [pnCall]
-    cases hin : compileCore x (flE tr fl0) L e [] 0 with
+    cases hin : compileCore x (flE tr fl0) L e [] 0 0 with
     | error er =>
       obtain ⟨e1, k1⟩ := er
-      have := core_err_kind x _ L e [] 0 hne e1 k1 hin
+      have := core_err_kind x _ L e [] 0 0 hne e1 k1 hin
       subst this
       exact ⟨k1, rfl⟩
     | ok o =>
-      obtain ⟨ho, _⟩ := core_inv x _ cnt hb L e [] 0 o hin
-      have hc := core_excl_count x (flE tr fl0) (flE_negate tr fl0).1 (flE_negate tr fl0).2 e [] 0
+      obtain ⟨ho, _⟩ := core_inv x _ cnt hb L e [] 0 0 o hin
+      have hc := core_excl_count x (flE tr fl0) (flE_negate tr fl0).1 (flE_negate tr fl0).2 e [] 0 0
       rw [← ho] at hc
+      have hle := core_total_le x _ cnt hb L hL e [] 0 0 (by simp; omega) o hin
+      have hd := distinct_length_le (allPieces x (flE tr fl0) e)
       simp only
-      have := distinct_length_le (allPieces x (flM tr fl0 true) ps)
-      exact core_raises x _ cnt hb _ (by rw [hc]; omega) ps _ _ hnm (by rw [hc]; push_cast at h ⊢; omega)
+      rcases h with h | h
+      · push_cast at hle; omega
+      · exact core_raises x _ cnt hb L hL ps _ _ _ hnm (by rw [hc]; push_cast at hle ⊢; omega) (by rw [hc]; exact h)
 
+/-- FULL: `limit = 0` disables the check, with `exclude=` too -/
 theorem pn_zero (tr : Bool) (x : Ext R) (fl0 : Flags) (cnt : Pat → Nat) (hb : BraceOK x cnt)
-    (ps : List Pat) (hnm : NormOK x (flM tr fl0 false) ps) :
-    ∃ o, pnCall tr x fl0 0 ps none = .ok o :=
-  ⟨_, by simp only [pnCall]; exact core_ok x _ cnt hb 0 ps [] 0 hnm (Or.inl rfl)⟩
+    (ps : List Pat) (ex : Option (List Pat))
+    (hne : exclNormOK tr x fl0 ex) (hnm : NormOK x (flM tr fl0 ex.isSome) ps) :
+    pnCall tr x fl0 0 ps ex = .ok (pnPure tr x fl0 ps ex) :=
+  pn_ok_val tr x fl0 cnt hb 0 ps ex hne hnm (Or.inl rfl)
 
+/-- FULL work bound: the items drawn from the expansion generator by the whole call are at most
+    `L + 1` plus the number of DUPLICATE exclusion pieces (the exclusion call counts its duplicates,
+    the main loop continues from the number of distinct exclusions); the third clause is the old
+    partial statement -/
 theorem pn_work (tr : Bool) (x : Ext R) (fl0 : Flags) (cnt : Pat → Nat) (hb : BraceOK x cnt)
     (hs : ∀ fl : Flags, fl.split = true → SplitNonempty x fl) (L : Int) (hL : 0 < L)
-    (ps : List Pat) (ex : Option (List Pat))
-    (hpart : ex = none ∨ (exclCount tr x fl0 ex : Int) < L) :
+    (ps : List Pat) (ex : Option (List Pat)) :
     (ex = none → (pullsOf (pnCall tr x fl0 L ps ex) Out.pulls : Int) ≤ L + 1) ∧
-    ((pullsOf (pnCall tr x fl0 L ps ex) Out.pulls + exclCount tr x fl0 ex : Nat) : Int) ≤ 2 * L + 1 := by
+    ((pullsOf (pnCall tr x fl0 L ps ex) Out.pulls + exclCount tr x fl0 ex : Nat) : Int) ≤
+        L + 1 + exclTotal tr x fl0 ex ∧
+    (pullsOf (pnCall tr x fl0 L ps ex) Out.pulls : Int) ≤ 2 * L + 1 ∧
+    ((ex = none ∨ (exclCount tr x fl0 ex : Int) < L) →
+      ((pullsOf (pnCall tr x fl0 L ps ex) Out.pulls + exclCount tr x fl0 ex : Nat) : Int) ≤ 2 * L + 1) := by
   cases ex with
   | none =>
-    simp only [pnCall, exclCount, Nat.add_zero]
-    have hw := core_work x (flM tr fl0 false) (hs _) L hL ps ([] : List R) 0
-    have : (pullsOf (compileCore x (flM tr fl0 false) L ps [] 0) Out.pulls : Int) ≤ L + 1 := by
-      cases hr : compileCore x (flM tr fl0 false) L ps ([] : List R) 0 with
+    simp only [pnCall, exclCount, exclTotal, Nat.add_zero]
+    have hw := core_work x (flM tr fl0 false) (hs _) L hL ps ([] : List R) 0 0 (by simp; omega)
+    have : (pullsOf (compileCore x (flM tr fl0 false) L ps [] 0 0) Out.pulls : Int) ≤ L + 1 := by
+      cases hr : compileCore x (flM tr fl0 false) L ps ([] : List R) 0 0 with
       | ok o => have := hw.1 o hr; simp only [pullsOf]; push_cast at this; omega
       | error er => obtain ⟨e1, k1⟩ := er; have := hw.2 e1 k1 hr; simp only [pullsOf]; push_cast at this; omega
-    exact ⟨fun _ => this, by omega⟩
+    exact ⟨fun _ => this, by push_cast; omega, by omega, fun _ => by omega⟩
   | some e =>
     refine ⟨(fun h => nomatch h), ?_⟩
-    simp only [exclCount] at hpart ⊢
-    have hlt : ((distinct (allPieces x (flE tr fl0) e)).length : Int) < L := by
-      rcases hpart with hp | hp
-      · cases hp
-      · exact hp
+    simp only [exclCount, exclTotal]
+    have hd := distinct_length_le (allPieces x (flE tr fl0) e)
     simp only [pnCall]
-    have hwe := core_work x (flE tr fl0) (hs _) L hL e ([] : List R) 0
-    cases hin : compileCore x (flE tr fl0) L e ([] : List R) 0 with
+    have hwe := core_work x (flE tr fl0) (hs _) L hL e ([] : List R) 0 0 (by simp; omega)
+    cases hin : compileCore x (flE tr fl0) L e ([] : List R) 0 0 with
     | error er =>
       obtain ⟨e1, k1⟩ := er
       have := hwe.2 e1 k1 hin
-      simp only [pullsOf]; push_cast at this ⊢; omega
+      simp only [pullsOf]
+      refine ⟨by push_cast at this ⊢; omega, by push_cast at this ⊢; omega, fun hp => ?_⟩
+      rcases hp with hp | hp
+      · cases hp
+      · push_cast at this ⊢; omega
     | ok o =>
-      have hpe := hwe.1 o hin
-      obtain ⟨ho, _⟩ := core_inv x _ cnt hb L e [] 0 o hin
-      have hc := core_excl_count x (flE tr fl0) (flE_negate tr fl0).1 (flE_negate tr fl0).2 e ([] : List R) 0
+      obtain ⟨hpe, hte⟩ := core_pulls_le_total x (flE tr fl0) cnt hb (hs _) L hL e [] 0 0 (by simp; omega) o hin
+      obtain ⟨ho, _⟩ := core_inv x _ cnt hb L e [] 0 0 o hin
+      have hc := core_excl_count x (flE tr fl0) (flE_negate tr fl0).1 (flE_negate tr fl0).2 e ([] : List R) 0 0
       rw [← ho] at hc
       simp only
-      have hL' : 0 < L - (o.pos.length : Int) := by rw [hc]; omega
-      have hwm := core_work x (flM tr fl0 true) (hs _) _ hL' ps o.pos o.pulls
-      cases hr : compileCore x (flM tr fl0 true) (L - o.pos.length) ps o.pos o.pulls with
-      | ok o2 => have := hwm.1 o2 hr; simp only [pullsOf]; rw [hc] at this; push_cast at this hpe ⊢; omega
+      have hu : ((o.pos.length : Nat) : Int) ≤ L := by rw [hc]; push_cast at hte; omega
+      have hwm := core_work x (flM tr fl0 true) (hs _) L hL ps o.pos o.pulls o.pos.length hu
+      cases hr : compileCore x (flM tr fl0 true) L ps o.pos o.pulls o.pos.length with
+      | ok o2 =>
+        have := hwm.1 o2 hr
+        simp only [pullsOf]; rw [hc] at this
+        push_cast at this hte ⊢
+        exact ⟨by omega, by omega, fun _ => by omega⟩
       | error er =>
         obtain ⟨e2, k2⟩ := er
         have := hwm.2 e2 k2 hr
-        simp only [pullsOf]; rw [hc] at this; push_cast at this hpe ⊢; omega
+        simp only [pullsOf]; rw [hc] at this
+        push_cast at this hte ⊢
+        exact ⟨by omega, by omega, fun _ => by omega⟩
 
-/-- with an exclusion list without duplicates the bound is `L + 1` again -/
+/-- with an exclusion list without duplicates the bound is `L + 1` for the whole call -/
 theorem pn_work_nodup (tr : Bool) (x : Ext R) (fl0 : Flags) (cnt : Pat → Nat) (hb : BraceOK x cnt)
     (hs : ∀ fl : Flags, fl.split = true → SplitNonempty x fl) (L : Int) (hL : 0 < L)
     (ps e : List Pat)
-    (hpart : ((distinct (allPieces x (flE tr fl0) e)).length : Int) < L)
     (hnodup : (allPieces x (flE tr fl0) e).length = (distinct (allPieces x (flE tr fl0) e)).length) :
     (pullsOf (pnCall tr x fl0 L ps (some e)) Out.pulls : Int) ≤ L + 1 := by
-  simp only [pnCall]
-  have hwe := core_work x (flE tr fl0) (hs _) L hL e ([] : List R) 0
-  cases hin : compileCore x (flE tr fl0) L e ([] : List R) 0 with
-  | error er =>
-    obtain ⟨e1, k1⟩ := er
-    have := hwe.2 e1 k1 hin
-    simp only [pullsOf]; push_cast at this ⊢; omega
-  | ok o =>
-    have hpe := (core_pulls_le_total x (flE tr fl0) cnt hb (hs _) L hL e [] 0 o hin).1
-    obtain ⟨ho, _⟩ := core_inv x _ cnt hb L e [] 0 o hin
-    have hc := core_excl_count x (flE tr fl0) (flE_negate tr fl0).1 (flE_negate tr fl0).2 e ([] : List R) 0
-    rw [← ho] at hc
-    simp only
-    have hL' : 0 < L - (o.pos.length : Int) := by rw [hc]; omega
-    have hwm := core_work x (flM tr fl0 true) (hs _) _ hL' ps o.pos o.pulls
-    cases hr : compileCore x (flM tr fl0 true) (L - o.pos.length) ps o.pos o.pulls with
-    | ok o2 => have := hwm.1 o2 hr; simp only [pullsOf]; rw [hc] at this; push_cast at this ⊢; omega
-    | error er =>
-      obtain ⟨e2, k2⟩ := er
-      have := hwm.2 e2 k2 hr
-      simp only [pullsOf]; rw [hc] at this; push_cast at this ⊢; omega
+  have := (pn_work tr x fl0 cnt hb hs L hL ps (some e)).2.1
+  simp only [exclCount, exclTotal, hnodup] at this
+  push_cast at this; omega
 
-/-! ### `Glob.__init__`: two `_parse_patterns` calls sharing `current_limit` -/
+/-! ### `Glob.__init__`: two `_parse_patterns` calls sharing `current_limit` and `total` -/
 
-def globStart (pulls : Nat) (o : GPN R) : Acc (GPN R) := ⟨0, pulls, [], o⟩
+def globStart (total pulls : Nat) (o : GPN R) : Acc (GPN R) := ⟨total, pulls, [], o⟩
 
-theorem globParse_def (x : Ext R) (g : GlobCfg) (force : Bool) (ps : List Pat) (cl : Int) (o : GPN R) (pulls : Nat) :
-    globParse x g force ps cl o pulls =
-      match runPatterns x g.flags (globPolicy x g force) g.limit ps cl (globStart pulls o) with
+theorem globParse_def (x : Ext R) (g : GlobCfg) (force : Bool) (ps : List Pat) (cl : Int) (o : GPN R) (pulls total : Nat) :
+    globParse x g force ps cl o pulls total =
+      match runPatterns x g.flags (globPolicy x g force) g.limit ps cl (globStart total pulls o) with
       | .error e => .error e
-      | .ok (a, cl') => .ok (finishGlob x g force a.out, cl', a.pulls) := rfl
+      | .ok (a, cl') => .ok (finishGlob x g force a.out, cl', a.pulls, a.total) := rfl
 
 def exclNormOKg (x : Ext R) (g : GlobCfg) (ex : Option (List Pat)) : Prop :=
   match ex with
@@ -368,16 +443,33 @@ def exclPiecesG (x : Ext R) (g : GlobCfg) (ex : Option (List Pat)) : List Pat :=
   | none => []
   | some e => allPieces x g.flags e
 
-theorem glob_ok (x : Ext R) (g : GlobCfg) (cnt : Pat → Nat) (hb : BraceOK x cnt)
+/-- the limit-free meaning of the pattern part of `Glob.__init__` (`g.limit` does not occur) -/
+def globPure (x : Ext R) (g : GlobCfg) (ps : List Pat) (ex : Option (List Pat)) : GOut R :=
+  if ps.isEmpty then ⟨[], [], 0⟩
+  else
+    let a1 := pureRun x g.flags (globPolicy x g false) ps (globStart 0 0 ⟨[], []⟩)
+    let o1 := finishGlob x g false a1.out
+    match ex with
+    | none => ⟨o1.pos, o1.neg, a1.pulls⟩
+    | some e =>
+      let a2 := pureRun x g.flags (globPolicy x g true) e (globStart a1.total a1.pulls o1)
+      let o2 := finishGlob x g true a2.out
+      ⟨o2.pos, o2.neg, a2.pulls⟩
+
+theorem globPure_limit (x : Ext R) (g : GlobCfg) (L : Int) (ps : List Pat) (ex : Option (List Pat)) :
+    globPure x { g with limit := L } ps ex = globPure x g ps ex := by
+  cases ex <;> rfl
+
+theorem glob_ok_val (x : Ext R) (g : GlobCfg) (cnt : Pat → Nat) (hb : BraceOK x cnt)
     (ps : List Pat) (ex : Option (List Pat)) (hn : NormOK x g.flags ps) (hne : exclNormOKg x g ex)
     (h : g.limit = 0 ∨ (0 < g.limit ∧ ((totalWeight x g.flags cnt ps + exclWeightG x g cnt ex : Nat) : Int) ≤ g.limit)) :
-    ∃ o, globPatterns x g ps ex = .ok o := by
-  unfold globPatterns
+    globPatterns x g ps ex = .ok (globPure x g ps ex) := by
+  unfold globPatterns globPure
   by_cases hemp : ps.isEmpty = true
   · simp [hemp]
   · simp only [hemp, Bool.false_eq_true, if_false]
     obtain ⟨cl1, hrun1, hcl1⟩ := runPatterns_ok x g.flags (globPolicy x g false) cnt hb g.limit ps 0
-      (globStart 0 ⟨[], []⟩) g.limit hn (by
+      (globStart 0 0 ⟨[], []⟩) g.limit hn (by
         rcases h with h | ⟨h1, h2⟩
         · exact Or.inl ⟨h, h⟩
         · right
@@ -386,16 +478,16 @@ theorem glob_ok (x : Ext R) (g : GlobCfg) (cnt : Pat → Nat) (hb : BraceOK x cn
           · simp only [globStart]; push_cast at h2 ⊢; omega)
     rw [globParse_def, hrun1]
     cases ex with
-    | none => exact ⟨_, rfl⟩
+    | none => rfl
     | some e =>
       simp only [exclNormOKg, exclWeightG] at hne h
-      have ht := pureRun_total x g.flags (globPolicy x g false) ps (globStart 0 ⟨[], []⟩)
+      have ht := pureRun_total x g.flags (globPolicy x g false) ps (globStart 0 0 ⟨[], []⟩)
       have hle := allPieces_le_weight x g.flags cnt ps
       simp only [globStart] at ht
-      obtain ⟨cl2, hrun2, _⟩ := runPatterns_ok x g.flags (globPolicy x g true) cnt hb g.limit e
-        (allPieces x g.flags ps).length
-        (globStart (pureRun x g.flags (globPolicy x g false) ps (globStart 0 ⟨[], []⟩)).pulls
-          (finishGlob x g false (pureRun x g.flags (globPolicy x g false) ps (globStart 0 ⟨[], []⟩)).out))
+      obtain ⟨cl2, hrun2, _⟩ := runPatterns_ok x g.flags (globPolicy x g true) cnt hb g.limit e 0
+        (globStart (pureRun x g.flags (globPolicy x g false) ps (globStart 0 0 ⟨[], []⟩)).total
+          (pureRun x g.flags (globPolicy x g false) ps (globStart 0 0 ⟨[], []⟩)).pulls
+          (finishGlob x g false (pureRun x g.flags (globPolicy x g false) ps (globStart 0 0 ⟨[], []⟩)).out))
         cl1 hne (by
           rcases h with h | ⟨h1, h2⟩
           · left
@@ -406,22 +498,30 @@ theorem glob_ok (x : Ext R) (g : GlobCfg) (cnt : Pat → Nat) (hb : BraceOK x cn
             rcases hcl1 with ⟨hc, _⟩ | ⟨_, hc⟩
             · omega
             · refine ⟨h1, ?_, ?_⟩
-              · rw [hc]; simp only [globStart] at ht ⊢; rw [ht]; simp
-              · simp only [globStart]; push_cast at h2 ⊢; omega)
+              · rw [hc]; simp [globStart]
+              · simp only [globStart] at ht ⊢; rw [ht]; push_cast at h2 ⊢; omega)
       simp only
       rw [globParse_def, hrun2]
-      exact ⟨_, rfl⟩
 
+theorem glob_ok (x : Ext R) (g : GlobCfg) (cnt : Pat → Nat) (hb : BraceOK x cnt)
+    (ps : List Pat) (ex : Option (List Pat)) (hn : NormOK x g.flags ps) (hne : exclNormOKg x g ex)
+    (h : g.limit = 0 ∨ (0 < g.limit ∧ ((totalWeight x g.flags cnt ps + exclWeightG x g cnt ex : Nat) : Int) ≤ g.limit)) :
+    ∃ o, globPatterns x g ps ex = .ok o ∧ globPatterns x { g with limit := 0 } ps ex = .ok o := by
+  refine ⟨_, glob_ok_val x g cnt hb ps ex hn hne h, ?_⟩
+  rw [← globPure_limit x g 0 ps ex]
+  exact glob_ok_val x { g with limit := 0 } cnt hb ps ex hn hne (Or.inl rfl)
+
+/-- FULL: the two lists are counted together (`self.total`) -/
 theorem glob_raises (x : Ext R) (g : GlobCfg) (cnt : Pat → Nat) (hb : BraceOK x cnt) (hL : 0 < g.limit)
     (ps : List Pat) (ex : Option (List Pat)) (hn : NormOK x g.flags ps) (hne : exclNormOKg x g ex)
     (hps : ps ≠ [])
-    (h : g.limit < ((allPieces x g.flags ps).length : Int) ∨ g.limit < ((exclPiecesG x g ex).length : Int)) :
+    (h : g.limit < (((allPieces x g.flags ps).length + (exclPiecesG x g ex).length : Nat) : Int)) :
     ∃ k, globPatterns x g ps ex = .error (.patternLimit, k) := by
   unfold globPatterns
   have hemp : ps.isEmpty = false := by cases ps <;> simp_all
   simp only [hemp, Bool.false_eq_true, if_false]
   rw [globParse_def]
-  cases hr1 : runPatterns x g.flags (globPolicy x g false) g.limit ps g.limit (globStart 0 ⟨[], []⟩) with
+  cases hr1 : runPatterns x g.flags (globPolicy x g false) g.limit ps g.limit (globStart 0 0 ⟨[], []⟩) with
   | error er =>
     obtain ⟨e1, k1⟩ := er
     have := runPatterns_error_kind x g.flags _ g.limit ps _ g.limit hn e1 k1 hr1
@@ -429,41 +529,48 @@ theorem glob_raises (x : Ext R) (g : GlobCfg) (cnt : Pat → Nat) (hb : BraceOK 
     exact ⟨k1, rfl⟩
   | ok r =>
     obtain ⟨a1, cl1⟩ := r
-    rcases h with h | h
-    · obtain ⟨k, hk⟩ := runPatterns_raises x g.flags (globPolicy x g false) cnt hb g.limit hL ps
-        (globStart 0 ⟨[], []⟩) g.limit hn (by simp [globStart]; omega) (by simpa [globStart] using h)
+    have hfit : ¬ (g.limit < ((allPieces x g.flags ps).length : Int)) := by
+      intro hov
+      obtain ⟨k, hk⟩ := runPatterns_raises x g.flags (globPolicy x g false) cnt hb g.limit hL ps
+        (globStart 0 0 ⟨[], []⟩) g.limit hn (by simp [globStart]; omega) (by simpa [globStart] using hov)
       rw [hk] at hr1; cases hr1
-    · cases ex with
-      | none => simp [exclPiecesG] at h; omega
-      | some e =>
-        simp only [exclPiecesG, exclNormOKg] at h hne
-        simp only
-        rw [globParse_def]
-        obtain ⟨k, hk⟩ := runPatterns_raises x g.flags (globPolicy x g true) cnt hb g.limit hL e
-          (globStart a1.pulls (finishGlob x g false a1.out)) cl1 hne (by simp [globStart]; omega)
-          (by simpa [globStart] using h)
-        rw [hk]
-        exact ⟨k, rfl⟩
+    obtain ⟨ha1, _⟩ := runPatterns_inv x g.flags (globPolicy x g false) cnt hb g.limit ps _ _ _ hr1
+    simp only at ha1
+    have ht := pureRun_total x g.flags (globPolicy x g false) ps (globStart 0 0 ⟨[], []⟩)
+    rw [← ha1] at ht
+    simp only [globStart, Nat.zero_add] at ht
+    cases ex with
+    | none => simp only [exclPiecesG, List.length_nil, Nat.add_zero] at h; exact absurd h hfit
+    | some e =>
+      simp only [exclPiecesG, exclNormOKg] at h hne
+      simp only
+      rw [globParse_def]
+      obtain ⟨k, hk⟩ := runPatterns_raises x g.flags (globPolicy x g true) cnt hb g.limit hL e
+        (globStart a1.total a1.pulls (finishGlob x g false a1.out)) cl1 hne
+        (by simp only [globStart]; rw [ht]; omega)
+        (by simp only [globStart]; rw [ht]; exact h)
+      rw [hk]
+      exact ⟨k, rfl⟩
 
+/-- FULL: `L + 1` for the whole call, with or without `exclude=` -/
 theorem glob_work (x : Ext R) (g : GlobCfg) (hs : g.flags.split = true → SplitNonempty x g.flags) (hL : 0 < g.limit)
     (ps : List Pat) (ex : Option (List Pat)) :
-    (ex = none → (pullsOf (globPatterns x g ps ex) GOut.pulls : Int) ≤ g.limit + 1) ∧
-    (pullsOf (globPatterns x g ps ex) GOut.pulls : Int) ≤ 2 * g.limit + 1 := by
+    (pullsOf (globPatterns x g ps ex) GOut.pulls : Int) ≤ g.limit + 1 := by
   unfold globPatterns
   by_cases hemp : ps.isEmpty = true
   · simp only [hemp, if_true, pullsOf]
-    exact ⟨fun _ => by push_cast; omega, by push_cast; omega⟩
+    push_cast; omega
   · simp only [hemp, Bool.false_eq_true, if_false]
     rw [globParse_def]
-    have hw1 := runPatterns_work x g.flags (globPolicy x g false) hs g.limit hL ps (globStart 0 ⟨[], []⟩) g.limit
+    have hw1 := runPatterns_work x g.flags (globPolicy x g false) hs g.limit hL ps (globStart 0 0 ⟨[], []⟩) g.limit
       (by simp [globStart]; omega)
-    cases hr1 : runPatterns x g.flags (globPolicy x g false) g.limit ps g.limit (globStart 0 ⟨[], []⟩) with
+    cases hr1 : runPatterns x g.flags (globPolicy x g false) g.limit ps g.limit (globStart 0 0 ⟨[], []⟩) with
     | error er =>
       obtain ⟨e1, k1⟩ := er
       have := hw1.2 e1 k1 hr1
       simp only [globStart] at this
       simp only [pullsOf]
-      exact ⟨fun _ => by push_cast at this ⊢; omega, by push_cast at this ⊢; omega⟩
+      push_cast at this ⊢; omega
     | ok r =>
       obtain ⟨a1, cl1⟩ := r
       obtain ⟨h1, h2⟩ := hw1.1 a1 cl1 hr1
@@ -471,15 +578,14 @@ theorem glob_work (x : Ext R) (g : GlobCfg) (hs : g.flags.split = true → Split
       cases ex with
       | none =>
         simp only [pullsOf]
-        exact ⟨fun _ => by push_cast at h1 ⊢; omega, by push_cast at h1 ⊢; omega⟩
+        push_cast at h1 ⊢; omega
       | some e =>
-        refine ⟨(fun h => nomatch h), ?_⟩
         simp only
         rw [globParse_def]
         have hw2 := runPatterns_work x g.flags (globPolicy x g true) hs g.limit hL e
-          (globStart a1.pulls (finishGlob x g false a1.out)) cl1 (by simp [globStart]; omega)
+          (globStart a1.total a1.pulls (finishGlob x g false a1.out)) cl1 (by simpa [globStart] using h1)
         cases hr2 : runPatterns x g.flags (globPolicy x g true) g.limit e cl1
-            (globStart a1.pulls (finishGlob x g false a1.out)) with
+            (globStart a1.total a1.pulls (finishGlob x g false a1.out)) with
         | error er =>
           obtain ⟨e2, k2⟩ := er
           have := hw2.2 e2 k2 hr2
